@@ -60,6 +60,14 @@ def seq_flatmap(f, xs):
     return [y for x in xs for y in f(x)]
 
 
+def seq_fold(f, init, xs):
+    """left fold: f(...f(f(init, x0), x1)..., xn)"""
+    acc = init
+    for x in xs:
+        acc = f(acc, x)
+    return acc
+
+
 def lexer_flags(G, name="lx", **fixed):
     """the eleven context attributes the token-typing functions keep on self.lexer"""
     d = {}
